@@ -70,6 +70,8 @@ class Ctx:
             self.sched[name] = list(res.choices)
             self.digests.append(res.log_digest)
             self.abstract.append(abstract_schedule(res.log))
+            for k, v in schedule_probes(res.log).items():
+                self.probes[k] = self.probes.get(k, 0) + v
             if not self.keep_log:
                 res.log = None
         self.results[name] = res
@@ -78,6 +80,83 @@ class Ctx:
         for k, v in res.probes.items():
             self.probes[k] = self.probes.get(k, 0) + v
         return res
+
+
+def schedule_probes(log):
+    """
+    'This rare condition was hit' counters derived from the event log of one multi-core run:
+    idle workers, results that had to be parked in the ordered writer, the reader finishing
+    before any worker received a chunk, a worker served twice in a row.
+    """
+    p = {}
+    if not log:
+        return p
+    assign = []  # request pipe per chunk, in chunk order
+    worker_in, worker_out = {}, {}
+    arrivals = []  # result pipe per received result (first recv_bytes of each result only)
+    reader_exit = None
+    first_worker_recv_bytes = None
+    paired_inputs = 1
+    last = None
+    for step, task, op, obj, size in log:
+        if task == "reader" and op == "send_bytes":
+            if last == ("reader", "send_bytes", obj):
+                paired_inputs = 2
+            else:
+                assign.append(obj)
+        elif task.startswith("worker"):
+            if op == "recv_bytes":
+                worker_in[task] = obj
+                if first_worker_recv_bytes is None:
+                    first_worker_recv_bytes = step
+            elif op in ("send", "send_bytes"):
+                worker_out[task] = obj
+        elif task == "reader" and op == "exit":
+            reader_exit = step
+        if task == "main" and op == "recv" and obj in worker_out.values():
+            pass
+        last = (task, op, obj)
+    # result arrival order: main's recv of an index on a result pipe precedes its recv_bytes calls
+    out_to_worker = {v: k for k, v in worker_out.items()}
+    in_of_worker = worker_in
+    pending = {w: [i for i, ch in enumerate(assign) if in_of_worker.get(w) == ch] for w in worker_out}
+    seen_result = set()
+    order = []
+    prev = None
+    for step, task, op, obj, size in log:
+        if task == "main" and op == "recv_bytes" and obj in out_to_worker:
+            if prev != ("recv_bytes", obj):
+                w = out_to_worker[obj]
+                if pending.get(w):
+                    order.append(pending[w].pop(0))
+        if task == "main":
+            prev = (op, obj)
+    cur, parked, max_parked = 0, set(), 0
+    for idx in order:
+        parked.add(idx)
+        while cur in parked:
+            parked.remove(cur)
+            cur += 1
+        max_parked = max(max_parked, len(parked))
+    n_workers = len({t for _, t, _, _, _ in log if t.startswith("worker")})
+    busy = len({w for w, ch in in_of_worker.items()})
+    if n_workers > busy:
+        p["worker_got_no_chunk"] = n_workers - busy
+    if max_parked >= 1:
+        p["result_parked_out_of_order"] = 1
+    if max_parked >= 2:
+        p["two_or_more_results_parked"] = 1
+    # (the reader cannot finish before a worker took a chunk: every chunk and every stop token
+    # needs a fresh work request, so that condition of DESIGN §3.7 is unreachable and not probed)
+    first_result = next((st for st, t, op, o, _ in log if t == "main" and op == "recv_bytes"), None)
+    last_chunk_sent = max((st for st, t, op, o, _ in log if t == "reader" and op == "send_bytes"), default=None)
+    if first_result is not None and last_chunk_sent is not None and len(assign) >= 2 and last_chunk_sent < first_result:
+        p["reader_sent_every_chunk_before_main_got_a_result"] = 1
+    if any(a == b for a, b in zip(assign, assign[1:])):
+        p["same_worker_served_twice_in_a_row"] = 1
+    if order and order != sorted(order):
+        p["results_arrived_out_of_chunk_order"] = 1
+    return p
 
 
 def abstract_schedule(log):
